@@ -1,7 +1,5 @@
 package gmars
 
-import "slices"
-
 // buildReferenceGraph takes a map of expressions and builds a graph of
 // symbol references as a map[string][]token
 func buildReferenceGraph(values map[string][]token) map[string][]string {
@@ -11,15 +9,17 @@ func buildReferenceGraph(values map[string][]token) map[string][]string {
 			continue
 		}
 		keyRefs := make([]string, 0)
+		seen := make(map[string]bool)
 		for _, tok := range tokens {
 			if tok.typ != tokText {
 				continue
 			}
 			_, ok := values[tok.val]
 			if ok {
-				if slices.Contains(keyRefs, tok.val) {
+				if seen[tok.val] {
 					continue
 				}
+				seen[tok.val] = true
 				keyRefs = append(keyRefs, tok.val)
 			}
 		}
